@@ -1,6 +1,7 @@
 //! Shared generators (DESIGN.md §3).
 pub mod text;
 pub mod zervgen;
+pub mod argv;
 pub mod flags;
 pub mod num;
 pub mod pep;
